@@ -59,7 +59,8 @@ for rp in sorted(glob.glob(os.path.join(RES, "final-*.json"))):
         continue
     st = r.get("steps", {})
     if not st.get("applies"):
-        rejected.append({"name": name, "why": "patch does not apply to the current HEAD of /repo (a later fix: commit rewrote the same lines)" + ("; a rebased copy is kept as %sr" % name if os.path.exists(os.path.join(RES, "final-out2r-%s-m%s.json" % (pid, k))) and sub == "out2" else "")})
+        rebased = os.path.exists(os.path.join(RES, "final-%sr-%s-m%s.json" % (sub, pid, k)))
+        rejected.append({"name": name, "why": "the author's patch no longer applies to the HEAD of /repo (a later fix: commit changed the same lines)" + ("; the same change re-applied by hand is kept as %sr" % name if rebased else "")})
         continue
     if not (st.get("demo_passes_on_head") and st.get("demo_fails_with_change") and st.get("existing_tests_pass_with_change")):
         rejected.append({"name": name, "why": "not confirmed", "steps": st})
